@@ -485,6 +485,11 @@ impl Translator {
             }
         }
 
+        #[cfg(feature = "verif")]
+        if crate::verif::optimizer_off() {
+            return st;
+        }
+
         st.lines = optimize(st.lines);
 
         st
